@@ -145,6 +145,8 @@ func c19Run(r *core.Run) {
 		quoteKind = "partial-message"
 	case 4:
 		quoteKind = "size-field-boundary"
+	case 5:
+		quoteKind = "message-with-short-field"
 	}
 	inform := []string{"bin", "proto", "textproto"}[t.Draw(3)]
 	anyExit := false // only "no crash, no hang" is judged
@@ -190,6 +192,43 @@ func c19Run(r *core.Run) {
 		quoteBytes = raw
 		anyExit = true
 		r.Probe("binary_quote_with_boundary_size_field")
+	case quoteKind == "message-with-short-field":
+		// a quote message one of whose fixed-width header fields lost trailing bytes that were zero (or is absent
+		// altogether): serialised back, it gives the very bytes that were signed — the tool must refuse it or
+		// judge it, not crash on it
+		if inform == "bin" {
+			inform = []string{"proto", "textproto"}[t.Draw(2)]
+		}
+		which := t.Draw(3)
+		keep := t.Draw(2) // 0: field absent, 1: one byte left
+		switch which {
+		case 0:
+			for i := keep; i < 2; i++ {
+				q.PceSvn[i] = 0
+			}
+		case 1:
+			for i := keep; i < 2; i++ {
+				q.QeSvn[i] = 0
+			}
+		default:
+			for i := 4 * keep; i < 20; i++ {
+				q.UserData[i] = 0
+			}
+		}
+		q.SignBody(w.P.AK)
+		m := q.Proto(0)
+		switch which {
+		case 0:
+			m.Header.PceSvn = m.Header.PceSvn[:keep]
+		case 1:
+			m.Header.QeSvn = m.Header.QeSvn[:keep]
+		default:
+			m.Header.UserData = m.Header.UserData[:4*keep]
+		}
+		quoteBytes = marshalQuote(m, inform)
+		note("short header field %d keep=%d", which, keep)
+		anyExit = true
+		r.Probe("quote_message_with_short_field")
 	case quoteKind == "partial-message":
 		if inform == "bin" {
 			inform = "proto"
@@ -885,7 +924,7 @@ func init() {
 	register(&core.Check{
 		ID:    "C19",
 		Level: "exploration",
-		Rule: "one process of the built tools/check binary (tag-guarded getter hook) per run, in a per-run directory populated from the tape: quote valid / forged body or QE signature / unparsable / structurally partial message / binary quote with boundary values in its size and type fields, in bin / proto / textproto form; config none / binary / .textproto with root-of-trust (bundle file, inline PEM, foreign root, mixed, missing file) and options; each of 9 exact-match fields independently absent / matching / mismatching / malformed in config and in flags; minimum SVN flags incl. explicit 0 and hex; minimum TEE TCB SVN and RTMR expectations; an any_mr_td allow-list in the config with or without the quote's value; absent sub-policies; corrupted config; network honest / four kinds of transport failure / garbage body / OutOfDate level / unreachable (no hook: the sandbox's sealed network). The exit status must lie in the set the tool contract gives for the injected causes (singleton when there is one cause), and stderr must show no Go panic. " +
+		Rule: "one process of the built tools/check binary (tag-guarded getter hook) per run, in a per-run directory populated from the tape: quote valid / forged body or QE signature / unparsable / structurally partial message / binary quote with boundary values in its size and type fields / message with a header field that lost its zero tail, in bin / proto / textproto form; config none / binary / .textproto with root-of-trust (bundle file, inline PEM, foreign root, mixed, missing file) and options; each of 9 exact-match fields independently absent / matching / mismatching / malformed in config and in flags; minimum SVN flags incl. explicit 0 and hex; minimum TEE TCB SVN and RTMR expectations; an any_mr_td allow-list in the config with or without the quote's value; absent sub-policies; corrupted config; network honest / four kinds of transport failure / garbage body / OutOfDate level / unreachable (no hook: the sandbox's sealed network). The exit status must lie in the set the tool contract gives for the injected causes (singleton when there is one cause), and stderr must show no Go panic. " +
 			"distinct = (quote kind, roots, options, network, config present, policy failing, exit status)",
 		Assumptions: []string{
 			"worlds are generated around the real wall clock (the tool has no time seam); validity windows are weeks to years wide",
@@ -900,6 +939,6 @@ func init() {
 			return 2500
 		},
 		Run:       c19Run,
-		MustProbe: []string{"exit_0", "exit_3", "exit_4", "flag_overrides_config_field", "config_sub_policy_absent", "quote_on_stdin", "binary_quote_with_boundary_size_field"},
+		MustProbe: []string{"exit_0", "exit_3", "exit_4", "flag_overrides_config_field", "config_sub_policy_absent", "quote_on_stdin", "binary_quote_with_boundary_size_field", "quote_message_with_short_field"},
 	})
 }
